@@ -208,8 +208,18 @@ impl<V, G> HnswIndex<V, G> {
             let found =
                 self.search_layer(ctx, &vector, &ep_candidates, self.params.ef_construction, l)?;
 
-            // Select neighbors
-            let neighbors = self.select_neighbors(found.clone(), self.params.m);
+            // Select neighbors. When `id` is being re-inserted it is already in the graph:
+            // it must not become its own neighbour, and it keeps the links it had, so that
+            // nodes reachable only through it stay reachable.
+            let mut candidates = found.clone();
+            candidates.retain(|Reverse((_, n))| *n != id);
+            let mut neighbors = self.select_neighbors(candidates, self.params.m);
+            for n in self.graph_store.get_neighbors(ctx, l, id)? {
+                if n != id && !neighbors.contains(&n) {
+                    neighbors.push(n);
+                }
+            }
+            neighbors.truncate(self.params.m * 2);
 
             // Store bidirectional connections
             self.graph_store
